@@ -568,6 +568,28 @@ func init() {
 			n.Msg = mkString(segs)
 			return &Iface{T: errType, V: n}
 		},
+		"errors.Is": func(e *Engine, _ *ssa.Function, a []Value) Value {
+			target, _ := a[1].(*Iface)
+			var walk func(v Value, depth int) bool
+			walk = func(v Value, depth int) bool {
+				ifc, _ := v.(*Iface)
+				if ifc == nil || target == nil {
+					return ifc == nil && target == nil
+				}
+				if eq, ok := e.valueEq(ifc, target).(bool); ok && eq {
+					return true
+				}
+				if n, ok := ifc.V.(*Native); ok && depth < 8 {
+					for _, w := range n.Wrap {
+						if walk(w, depth+1) {
+							return true
+						}
+					}
+				}
+				return false
+			}
+			return walk(a[0], 0)
+		},
 		"errors.New": func(e *Engine, _ *ssa.Function, a []Value) Value {
 			return &Iface{T: errType, V: &Native{Kind: "error", Msg: a[0]}}
 		},
@@ -943,7 +965,7 @@ func (e *Engine) nativeMethod(n *Native, name string, args []Value, m *types.Fun
 			return n.Data
 		}
 		if name == "IsDir" {
-			return e.faultPoint("isdir")
+			return e.choicePoint("isdir")
 		}
 		return e.zero(m.Type().(*types.Signature).Results().At(0).Type())
 	case "error.Error":
